@@ -544,6 +544,10 @@ func (c *Conn) OpenDownstream(ctx context.Context, filters []*message.Downstream
 
 				if err := down.resume(c); err != nil {
 					down.logger.Errorf(ctx, "Failed to resume downstream: %+v", err)
+					if down.state.Is(streamStatusDraining) {
+						// a Close is under way: keep the event dispatcher until its closed event is queued
+						<-down.ctx.Done()
+					}
 					return
 				}
 				down.logger.Infof(ctx, "Succeeded in resuming downstream [%v]", down.ID)
